@@ -162,7 +162,7 @@ def run(ctx):
         f = ctx.fn(key)
         if f:
             fw = ctx.find_calls(f, r"Accumulator::finish_with")
-            hs = ctx.find_calls(f, r"Accumulator::handle")
+            hs = [h for h in ctx.per_element(f, r"Accumulator::handle$") if h["form"] in ("adapter", "loop")]
             rets = ctx.ret_exprs(f)
             ctx.ob("C02.P.options-walk", f.key, "handle per item, finish_with(self) at the end", len(fw) == 1 and len(hs) >= 1 and len(rets) == 1 and "finish_with" in rets[0][1], "%d handle, %d finish_with, returns %s" % (len(hs), len(fw), [e[:60] for _, e in rets]))
     # maps: a key is remembered on every path after a successful key conversion (shared with C14)
